@@ -54,8 +54,8 @@ func FilePaths(tier int) []string {
 
 func FileAccess(tier int) [][]string {
 	return pick(tier,
-		[][]string{{"r"}, {"w"}, {"r", "w"}, {"m", "r"}, {"r", "ix"}, {"Px"}, {"r", "Px"}},
-		[][]string{{"l"}, {"k"}, {"r", "w", "k"}, {"ix"}, {"m", "r", "ix"}, {"Cx"}, {"PUx"}, {"ux"}, {"r", "pix"}, {"x"}})
+		[][]string{{"r"}, {"w"}, {"r", "w"}, {"m", "r"}, {"r", "ix"}, {"Px"}, {"r", "Px"}, {"r", "PUx"}, {"Pix"}},
+		[][]string{{"l"}, {"k"}, {"r", "w", "k"}, {"ix"}, {"m", "r", "ix"}, {"Cx"}, {"PUx"}, {"ux"}, {"r", "pix"}, {"x"}, {"m", "r", "Cix"}, {"cux"}})
 }
 
 func hasExec(a []string) bool {
@@ -71,8 +71,8 @@ func File(tier int) []aa.Rule {
 			for _, q := range quals {
 				for _, o := range []bool{false, true} {
 					for _, t := range []string{"", "@{p_tgt}"} {
-						if t != "" && !(a[len(a)-1] == "Px" || a[len(a)-1] == "Cx") {
-							continue
+						if t != "" && !strings.ContainsAny(a[len(a)-1][:1], "PpCc") {
+							continue // only named-profile transitions (with or without fallback) take a target
 						}
 						if q.AccessType == "deny" && hasExec(a) && a[len(a)-1] != "x" {
 							continue // deny rules only take a bare x
